@@ -23,7 +23,8 @@ ASSUMPTIONS = ['layers have distinct qualified names (bare names may repeat acro
                'class-layer DAGs are restricted to those with a consistent '
                'C3 MRO (others cannot be written in Python)']
 FLOORS = {'resume_runs': 15, 'dead_child_runs': 10, 'subprocess_layers': 80, 'order_calls': 20000, 'perm_groups': 3000, 'nontrivial_groups': 1000,
-          'cli_runs': 100, 'variant_pairs': 80, 'monitor_evals': 20000}
+          'cli_runs': 100, 'variant_pairs': 80, 'monitor_evals': 20000,
+          'runs_with_layer_options_in_arbitrary_order': 30}
 BATCH_TIMEOUT = 600
 
 
@@ -368,6 +369,17 @@ def run_runs(case):
                 extra = ['--list-tests']
             if mode == 'par':
                 opts['processes'] = rng.randint(2, 4)
+            if rng.random() < 0.4:
+                # the same set of layers asked for by name: one exact
+                # --layer pattern per layer, in an arbitrary order (the
+                # order of the options is no input of the run order)
+                pats = ['UnitTests$' if k is None else
+                        vworld.layer_pattern(spec, k) for k in owners]
+                rng.shuffle(pats)
+                opts['layer'] = pats
+                counters['runs_with_layer_options_in_arbitrary_order'] = \
+                    counters.get(
+                        'runs_with_layer_options_in_arbitrary_order', 0) + 1
             crashed = None
             if mode in ('par', 'resume') and rng.random() < 0.4:
                 # one of the layer subprocesses dies in the middle of a
